@@ -389,6 +389,82 @@ func runC07(c *explore.Ctx) {
 		s.WallS = time.Since(t0).Seconds()
 	}
 	sentSub()
+	// the caller's slice of sources: a load is judged on the sources handed in, whatever the slice's spare capacity,
+	// and leaves the slice as it was, so that a second load of it — or of it with one more source — is judged alike
+	if s := c.Sub("caller-slices", fmt.Sprintf("base + each of %d menu items cut into k = 1 … 7 sources, held in a slice with spare capacity 0 … 3: loaded, loaded again, and loaded once more after appending a further source", len(gen.KitMenu)),
+		"every load returns what a load of a freshly built, exactly sized slice of the same sources returns (loads ⇔, same error text, same schema dump); the slice holds the same sources afterwards", "every case"); s != nil {
+		t0 := time.Now()
+		outcome := func(srcs []*ast.Source) string {
+			var sch *ast.Schema
+			var err error
+			r := guarded(4000000, 0, func() { sch, err = gqlparser.LoadSchema(srcs...) })
+			if r.Panicked {
+				return "panic: " + r.PanicVal
+			}
+			if err != nil {
+				return "error: " + err.Error()
+			}
+			return schemaDump(sch)
+		}
+		for it := -1; it < len(gen.KitMenu); it++ {
+			if (it+1)%c.NShards != c.Shard {
+				continue
+			}
+			defs := append([]string{}, gen.KitBase...)
+			if it >= 0 {
+				defs = append(defs, gen.KitMenu[it])
+			}
+			extra := "type ExtraModule { x: Int }"
+			for k := 1; k <= 7; k++ {
+				mk := func() []*ast.Source {
+					var out []*ast.Source
+					for j := 0; j < k; j++ {
+						lo, hi := j*len(defs)/k, (j+1)*len(defs)/k
+						out = append(out, &ast.Source{Name: fmt.Sprintf("m%d.graphql", j), Input: strings.Join(defs[lo:hi], "\n")})
+					}
+					return out
+				}
+				want := outcome(mk())
+				want2 := outcome(append(mk(), &ast.Source{Name: "extra.graphql", Input: extra}))
+				for spare := 0; spare <= 3; spare++ {
+					s.States++
+					s.Executions++
+					orig := mk()
+					held := make([]*ast.Source, len(orig), len(orig)+spare)
+					copy(held, orig)
+					got1 := outcome(held)
+					got2 := outcome(held)
+					same := len(held) == len(orig)
+					for j := range orig {
+						same = same && held[j] == orig[j]
+					}
+					grown := append(held, &ast.Source{Name: "extra.graphql", Input: extra})
+					got3 := outcome(grown)
+					s.Transitions += 3
+					s.Validated++
+					in := kitInput{Items: []int{it}}
+					rendered := fmt.Sprintf("%s\n(k=%d sources, spare capacity %d)", strings.Join(defs[len(gen.KitBase):], "\n"), k, spare)
+					switch {
+					case !same:
+						c.Report(s, explore.Violation{Key: "load/callers-slice-changed", Input: explore.J(in), Rendered: rendered, Detail: "after LoadSchema(slice...) the caller's slice holds other sources than before"})
+					case got1 != want:
+						c.Report(s, explore.Violation{Key: "load/depends-on-slice-capacity first-load", Input: explore.J(in), Rendered: rendered, Detail: "the first load of a slice with spare capacity differs from the load of an exactly sized slice", Expected: want, Observed: got1})
+					case got2 != want:
+						c.Report(s, explore.Violation{Key: "load/depends-on-earlier-load second-load", Input: explore.J(in), Rendered: rendered, Detail: "loading the same slice of sources a second time gives another result", Expected: want, Observed: got2})
+					case got3 != want2:
+						c.Report(s, explore.Violation{Key: "load/depends-on-earlier-load after-append", Input: explore.J(in), Rendered: rendered, Detail: "loading the slice after appending one more source differs from loading a fresh slice of the same sources", Expected: want2, Observed: got3})
+					}
+					if strings.HasPrefix(want, "error") {
+						s.Outcome("rejected")
+					} else {
+						s.Outcome("loads")
+						s.Nontrivial++
+					}
+				}
+			}
+		}
+		s.WallS = time.Since(t0).Seconds()
+	}
 	kitSub := func() {
 		k := c.Pick(3, 4)
 		s := c.Sub("kit", fmt.Sprintf("every type system = base (%d definitions) + ≤ %d of %d menu items (good variants and one bad variant per rule: duplicate names, dangling references, wrong kinds in every position, interface field/argument/transitivity violations incl. list covariance at depth, empty bodies, reserved names, misplaced directives, missing required directive arguments, roots, extension kinds)", len(gen.KitBase), k, len(gen.KitMenu)),
